@@ -12,7 +12,7 @@ The same machine has a closed instance (spec/MC_GroupRun.tla): a pool of small g
 FailAllReaches, StopAllIsFinal, YieldedInOrder, MemberInStep) and every terminal state is replayed into the real CsvPaths."""
 import json
 
-from checks import c09, runfam, mcrun, jointrun, mcgroup, repotraces, errruns
+from checks import c09, runfam, mcrun, jointrun, mcgroup, repotraces, errruns, errgroup
 from lib import common, scratch
 from lib.tlc import MachineryError
 
@@ -112,7 +112,7 @@ def verdict_reports(rep, tier):
 def main(tier):
     n = 700 if tier == "quick" else 12000
     return runfam.run(PID, tier, groups=("core", "control", "validity"), judged=JUDGED, ncases=n, seed_salt=400,
-                      pre=lambda rep: (aggregation(rep, tier), verdict_reports(rep, tier), mcrun.run_pool(rep, tier, {"valid"}, PID), repotraces.run(rep, tier, JUDGED, PID),
+                      pre=lambda rep: (aggregation(rep, tier), verdict_reports(rep, tier), errgroup.run(rep, tier, {"member_valid", "is_valid_api", "all_valid"}), mcrun.run_pool(rep, tier, {"valid"}, PID), repotraces.run(rep, tier, JUDGED, PID),
                                        jointrun.run(rep, tier, {"valid", "final_valid", "all_valid"}, PID, n=80 if tier == "quick" else 2500),
                                        mcgroup.run_pool(rep, tier, {"valid", "allValid"}, PID),
                                        # "... or an error is handled under a policy that includes 'fail', and once False it never returns to True"
